@@ -107,7 +107,7 @@ def _gen_build(r, g, class_default):
                     v = _sv(g.tok(t))
                 st['items'].append([dk, v])
     fams = [r.choice(['call', 'call', 'bind', 'xrefcall', 'eval', 'fstr', 'import', 'rec', 'boxinc', 'chain', 'evalprobe',
-                      'evalattr', 'aynscfg', 'reclist', 'recxref', 'inclist', 'boxwhole', 'boxwhole', 'nestbox', 'nestbox', 'pathcall', 'prevmove'])
+                      'evalattr', 'aynscfg', 'reclist', 'recxref', 'inclist', 'boxwhole', 'boxwhole', 'nestbox', 'nestbox', 'pathcall', 'prevmove', 'aliasval'])
             for _ in range(r.randrange(1, 5))]
     # a mapping-valued data entry whose members have their own taint (read member-wise by evaluated code)
     box_key = None
@@ -267,6 +267,20 @@ def _gen_build(r, g, class_default):
                 fn = g.fname('box')
                 g.files[fn] = '{c: ' + _call(g, 'U', 'call') + '}\n'
                 v = '!unsafe {inc: !include ' + fn + '}'
+            elif fam == 'aliasval':
+                # a plain value written below !unsafe and named by an anchor; a safe place of the same document uses the alias
+                u = g.tok('U')
+                val = r.choice([_sv(u), '[' + _sv(u) + ']', '{k: ' + _sv(u) + '}'])
+                st['items'].append([key + 'v', '!unsafe {x: &anc' + key + ' ' + val + ', note: 1}'])
+                c = r.randrange(3)
+                if c == 0:
+                    v = _call(g, t, r.choice(['call', 'bind']), args={'a': f'*anc{key}'})
+                elif c == 1:
+                    st['items'].append([key + 'a', f'*anc{key}'])
+                    v = _call(g, t, 'call', args={'a': f'!xref {key}a'})
+                else:
+                    st['items'].append([key + 'a', f'*anc{key}'])
+                    v = '!eval ' + emit.scalar_text(f"rec('{g.tok(t)}', {key}a)")
             elif fam == 'pathcall':
                 # a !path assembled from components of mixed taint, consumed by a call or by evaluated code
                 comps = [_sv(g.tok(t)), ('!unsafe ' + _sv(g.tok('U'))) if r.random() < 0.6 else _sv(g.tok(t)), _sv(g.tok(t))]
